@@ -1,6 +1,7 @@
 /- Driver operations for `Frames.lean` (C17). Values travel as opaque naturals
 (IEEE bit patterns chosen by the harness). -/
 import SnowModel.Frames
+import SnowModel.FrameLabels
 import SnowModel.Wire
 
 namespace Snow.Ops
@@ -94,9 +95,21 @@ def c17FallHist : Op := fun j => do
     | _ => throw "bad step"
   return Json.mkObj [("out", Json.arr out)]
 
+/-- `c17_labels`: the `group` columns as the label functions of `Groups.lean` give them -/
+def c17Labels : Op := fun j => do
+  let hex := (optFld j "hexagonal").bind (fun b => b.getBool?.toOption) |>.getD false
+  let arr : Snow.Topology.Arr := if hex then .hexagonal else .square
+  let nx ← nat j "nx"
+  let ny ← nat j "ny"
+  let nz ← nat j "nz"
+  let vials ← nats j "vials"
+  return Json.mkObj [("stats", encStrs (Snow.FrameLabels.statsLabels arr nx ny nz)),
+    ("traj", encStrs (Snow.FrameLabels.trajLabels arr nx ny nz vials))]
+
 def framesOps : List (String × Op) := [
   ("c17_flake", c17Flake),
   ("c17_fall", c17Fall),
-  ("c17_fallhist", c17FallHist)]
+  ("c17_fallhist", c17FallHist),
+  ("c17_labels", c17Labels)]
 
 end Snow.Ops
